@@ -80,7 +80,10 @@ def _gen_one(rng):
         g[u][v]["bond"] = (a, b) if rng.random() < 0.5 else [a, b]
     g, scheme, _ = gens.reid(rng, g)
     if kind == "completed":
-        g = add_implicit_hydrogens(gens.copy_exact(g))
+        try:
+            g = add_implicit_hydrogens(gens.copy_exact(g))
+        except Exception:
+            pass        # preparing an input must not depend on the implementation behaving: keep the graph as it is
         if rng.random() < 0.5:
             # remove one hydrogen again / or make it a partial completion
             hs = [n for n in g.nodes if g.nodes[n].get("symbol") == "H"]
